@@ -340,3 +340,42 @@ func (ex *Exec) knownGlobal(g interface{ String() string }) (value, bool) {
 }
 
 const tokADD = token.ADD
+
+// newStructPtr allocates a zero value of the pointed-to struct type and sets fields by name.
+func newStructPtr(ptrType types.Type, fields map[string]value) value {
+	elem := mustDeref(ptrType)
+	cell := zero(elem)
+	st := cell.(structure)
+	tst := elem.Underlying().(*types.Struct)
+	for i := 0; i < tst.NumFields(); i++ {
+		if v, ok := fields[tst.Field(i).Name()]; ok {
+			st[i] = v
+		}
+	}
+	return &cell
+}
+
+func registerConnectStubs(e *Engine) {
+	// connect.NewError(code, err) *Error: a plain struct carrying code and the wrapped error
+	e.reg("connectrpc.com/connect.NewError", func(fr *frame, args []value) value {
+		return newStructPtr(fr.fn.Signature.Results().At(0).Type(), map[string]value{"code": args[0], "err": args[1]})
+	})
+	e.reg("(*connectrpc.com/connect.Error).Error", func(fr *frame, args []value) value {
+		st := (*nilCheck(args[0].(*value))).(structure)
+		for _, f := range st {
+			if i, ok := f.(iface); ok && i.t != nil {
+				return "connect error: " + fr.ex.errorText(fr, i)
+			}
+		}
+		return "connect error"
+	})
+	e.reg("(*connectrpc.com/connect.Error).Unwrap", func(fr *frame, args []value) value {
+		st := (*nilCheck(args[0].(*value))).(structure)
+		for _, f := range st {
+			if i, ok := f.(iface); ok && i.t != nil {
+				return i
+			}
+		}
+		return iface{}
+	})
+}
